@@ -188,6 +188,12 @@ RawKind(r) == CASE r \in {"abs64", "abs64m", "abs32", "abs32s", "abs32z"} -> "Ab
                 [] r = "dtpoff64" -> "DtpOff"
                 [] OTHER -> "TlsDesc"
 
+(* Which relaxation rules are transcribed: "code" = the tree; "old" = the tree before `fix: don't relax
+   GOT loads of absolute symbols into sign-extending or PC-relative forms` (REX.W mov of an absolute
+   symbol relaxed to a sign-extending imm32, plain GOTPCREL mov of an absolute symbol relaxed to lea).
+   "old" is only selected by mc/Reloc_oldrelax.cfg (definition override), which TLC must reject. *)
+RelaxVariant == "code"
+
 (* Relax: the relaxation new_relaxation offers, "" if none; Mandatory when the output is a static
    executable (or for the ifunc PC32 -> PLT32 rewrite) *)
 RelaxOffer(c) ==
@@ -196,12 +202,19 @@ RelaxOffer(c) ==
         isAbs == WAbsolute(k) /\ ~WDynamic(k, o)
         isAbsAddr == WAddress(k, o) /\ ~WRelocatable(o)
         ip == WInterposable(k, o)
+        old == RelaxVariant = "old"
     IN IF WIfunc(k) THEN (IF c.ref \in {"pc32", "pc32d"} THEN "ifunc-pc32-to-plt32" ELSE "")
        ELSE IF ~SiteExec(c) THEN ""
-       ELSE CASE c.ref \in {"rex_gotpcrelx", "gotpcrelx_mov32"} ->
+       ELSE CASE c.ref = "rex_gotpcrelx" ->
+                     \* REX.W forms: the value of an absolute symbol is unknown here and the rewritten
+                     \* instruction sign-extends its imm32: absolute symbols keep their GOT load
+                     IF isAbs /\ ~old THEN ""
+                     ELSE IF isAbs \/ isAbsAddr THEN "mov-to-imm" ELSE IF ~ip THEN "mov-to-lea" ELSE ""
+              [] c.ref = "gotpcrelx_mov32" ->
                      IF isAbs \/ isAbsAddr THEN "mov-to-imm" ELSE IF ~ip THEN "mov-to-lea" ELSE ""
-              [] c.ref \in {"gotpcrelx_call", "gotpcrelx_jmp"} -> IF ~ip THEN "branch-to-direct" ELSE ""
-              [] c.ref = "gotpcrel" -> IF ~ip THEN "mov-to-lea" ELSE ""
+              [] c.ref \in {"gotpcrelx_call", "gotpcrelx_jmp"} ->
+                     IF ~ip /\ (old \/ ~(isAbs /\ WRelocatable(o))) THEN "branch-to-direct" ELSE ""
+              [] c.ref = "gotpcrel" -> IF ~ip /\ (old \/ ~isAbs) THEN "mov-to-lea" ELSE ""
               [] c.ref = "plt32" -> IF ~ip THEN "plt-to-pc" ELSE ""
               [] c.ref = "pltoff64" -> IF ~ip THEN "pltoff-to-gotoff" ELSE ""
               [] c.ref \in {"gottpoff_mov", "gottpoff_add"} -> IF Exe(o) /\ ~ip THEN "ie-to-le" ELSE ""
@@ -311,6 +324,8 @@ Conform(c) ==
 Dev_Abs32Dyn(c) == FieldIs32(c) /\ EffKind(c) = "Absolute" /\ WWrite(c) # "" /\ WOutcome(c) = "link"
 Dev_PcrelConstPI(c) == /\ EffKind(c) \in {"Relative", "SymRelGotBase"} /\ RelaxApplied(c) = ""
                        /\ WAbsolute(c.sym) /\ PI(c.out) /\ WOutcome(c) = "link"
+(* FIXED in the tree (174c817): the next two describe the old behaviour, reachable only with
+   RelaxVariant = "old"; they are NOT accepted deviations any more (not in DevName) *)
 Dev_GotpcrelAbsLea(c) == c.ref = "gotpcrel" /\ RelaxApplied(c) = "mov-to-lea" /\ WAbsolute(c.sym) /\ PI(c.out)
 Dev_RexGotpcrelxSign(c) == c.ref = "rex_gotpcrelx" /\ RelaxApplied(c) = "mov-to-imm" /\ c.sym = "abs_2g"
 Dev_RelaxImmOverflow(c) == RelaxApplied(c) \in {"mov-to-imm", "mov-to-lea"} /\ c.sym = "abs_4g"   \* valid GOT load rejected
@@ -327,8 +342,6 @@ DevName(c) ==
       [] Dev_Abs32Dyn(c) -> "abs32-needs-dynreloc"
       [] Dev_OverflowUnchecked(c) -> "overflow-unchecked"
       [] Dev_PcrelConstPI(c) -> "pcrel-const-in-pi"
-      [] Dev_GotpcrelAbsLea(c) -> "gotpcrel-abs-lea"
-      [] Dev_RexGotpcrelxSign(c) -> "rex-gotpcrelx-sign"
       [] Dev_RelaxImmOverflow(c) -> "relax-imm-overflow"
       [] Dev_DtpoffExe(c) -> "dtpoff64-exe"
       [] Dev_LocalTlsImported(c) -> "local-tls-imported"
